@@ -107,6 +107,8 @@ pub enum Why {
     /// the derived address is already taken: accepting the request would let two contracts share
     /// one key space
     DuplicateAddress,
+    /// the contract's current code has no entry point of this kind: the call must fail
+    NoEntryPoint(Kind),
     Plain,
 }
 
@@ -193,6 +195,15 @@ pub fn api() -> MockApi {
     MockApi::default().with_prefix(PREFIX.with(|p| p.get()))
 }
 
+/// `addr` (an address of the current chain) re-encoded with the Bech32m checksum and the same prefix
+pub fn alien_text(addr: &str) -> String {
+    let prefix = PREFIX.with(|p| p.get());
+    match api().addr_canonicalize(addr) {
+        Ok(c) => cw_multi_test::MockApiBech32m::new(prefix).addr_humanize(&c).map(|a| a.to_string()).unwrap_or_else(|_| "alien".to_string()),
+        Err(_) => "alien".to_string(),
+    }
+}
+
 pub fn classic_address(code_id: u64, instance_id: u64) -> String {
     api().addr_humanize(&classic_canonical(code_id, instance_id)).unwrap().to_string()
 }
@@ -268,7 +279,9 @@ impl<'a> Interp<'a> {
     // ------------------------------------------------------------ reference resolution
 
     pub fn cref(&self, c: CRef) -> String {
-        if c.0 == 255 || self.st.order.is_empty() {
+        if c.0 == 254 {
+            "Not/An Address".to_string()
+        } else if c.0 == 255 || self.st.order.is_empty() {
             self.fx.nowhere.clone()
         } else {
             self.st.order[c.0 as usize % self.st.order.len()].clone()
@@ -289,6 +302,8 @@ impl<'a> Interp<'a> {
             ARef::User(i) => self.fx.users[i as usize % self.fx.users.len()].clone(),
             ARef::C(c) => self.cref(c),
             ARef::Fresh(i) => self.fx.fresh[i as usize % self.fx.fresh.len()].clone(),
+            ARef::Raw(i) => ["raw0", "RAW1", "cosmwasm1raw"][i as usize % 3].to_string(),
+            ARef::Alien(i) => alien_text(&self.fx.users[i as usize % self.fx.users.len()]),
         }
     }
 
@@ -469,6 +484,9 @@ impl<'a> Interp<'a> {
             }
             QSpec::Raw(c, k) => {
                 let addr = self.cref(*c);
+                if !Self::valid_addr(&addr) {
+                    return Err(());
+                }
                 // a raw query of a missing contract or key yields empty data
                 let v = view.contracts.get(&addr).and_then(|ci| ci.kv.get(&k.0)).cloned().unwrap_or_default();
                 Ok(String::from_utf8_lossy(&v).into_owned())
@@ -589,6 +607,7 @@ impl<'a> Interp<'a> {
         };
         if !Self::family_has(code.family, kind) {
             self.failures += 1;
+            self.last_fail = Some(Why::NoEntryPoint(kind));
             return Err(());
         }
         let node: Option<Node> = node_idx.and_then(|n| self.tx.nodes.get(n).cloned());
@@ -821,6 +840,7 @@ impl<'a> Interp<'a> {
                 if let Some(s) = site.clone() {
                     self.sites.push(s);
                 }
+                // the recipient is taken unchecked by the bank module (only queries and sudo validate)
                 if self.bank_send(sender, to_address, amount).is_err() {
                     self.failures += 1;
                     self.last_fail = Some(Why::Plain);
